@@ -19,7 +19,6 @@ import copy
 import numpy as np
 import torch
 
-import cheetah
 import lattices as LT
 from fals import _c0405 as H
 
